@@ -5,6 +5,7 @@ package vgirpc
 
 import (
 	"fmt"
+	"reflect"
 )
 
 func toInt64(v any) (int64, error) {
@@ -30,6 +31,18 @@ func toInt64(v any) (int64, error) {
 	case uint8:
 		return int64(val), nil
 	default:
+		// A named integer type (type Level int32) is not any of the cases
+		// above; its Kind is. SchemaForStruct and the decoder go by Kind, so
+		// the encoder has to as well or such a field can never be sent.
+		rv := reflect.ValueOf(v)
+		if rv.IsValid() {
+			if rv.CanInt() {
+				return rv.Int(), nil
+			}
+			if rv.CanUint() {
+				return int64(rv.Uint()), nil
+			}
+		}
 		return 0, fmt.Errorf("cannot convert %T to int64", v)
 	}
 }
@@ -57,6 +70,15 @@ func toUint64(v any) (uint64, error) {
 	case int8:
 		return uint64(val), nil
 	default:
+		rv := reflect.ValueOf(v)
+		if rv.IsValid() {
+			if rv.CanUint() {
+				return rv.Uint(), nil
+			}
+			if rv.CanInt() {
+				return uint64(rv.Int()), nil
+			}
+		}
 		return 0, fmt.Errorf("cannot convert %T to uint64", v)
 	}
 }
@@ -72,6 +94,22 @@ func toFloat64(v any) (float64, error) {
 	case int64:
 		return float64(val), nil
 	default:
+		rv := reflect.ValueOf(v)
+		if rv.IsValid() && rv.CanFloat() {
+			return rv.Float(), nil
+		}
 		return 0, fmt.Errorf("cannot convert %T to float64", v)
 	}
+}
+
+// asBool accepts a bool or a named bool type.
+func asBool(value any) (bool, bool) {
+	if b, ok := value.(bool); ok {
+		return b, true
+	}
+	rv := reflect.ValueOf(value)
+	if rv.IsValid() && rv.Kind() == reflect.Bool {
+		return rv.Bool(), true
+	}
+	return false, false
 }
